@@ -12,6 +12,11 @@ spec/Props_C18.tla (universes), spec/Trace_Dump.tla (direction B).
   B  seeded random deeper documents and every fixture YAML section of the repository that parses are round-tripped by the
      library, recorded and validated by TLC (verdict per trace, formulas evaluated on the LOGGED pair).
   M  one mutation cfg per deviation switch (+ design mutations): TLC must refute the property.
+  F  source files (AyDump.tla "SOURCE FILES"): every document holding `!path` nodes (A and B) is also written to a scratch
+     file <work>/A/cfg/exp/doc.yaml and parsed FROM it, so that the nodes know their source file and the dump writes
+     `source_file:` into the `!path` mappings; the dump is re-read (a) as a string, (b) from <work>/B/dumps/re.yaml, (c) under
+     the original name; source file + own value of every `!path` node, Config evaluation (alone and inside merge histories,
+     paths compared through os.path.abspath) and the second dump are compared, and bound to the layer of the specification.
 """
 import hashlib
 import json
@@ -103,7 +108,9 @@ META = {
             "finding, any other is a violation. Random deeper documents and all fixture sections are recorded and validated by TLC.",
     "note": "trusted: TLC, harness/sdoc.py renderer, harness/project.py projection, PyYAML 6.0.3, CPython 3.12; universes bounded (depth 2 below the "
             "root, keys a/b, one metadata key); strings are opaque to TLC (one string with a backslash models repr-quoting); "
-            "source_file / idx are not part of a dump by design (node.py:354) and not compared",
+            "source_file / idx are not part of a dump by design (node.py:354) and not compared, EXCEPT the source file of `!path` nodes, "
+            "which path.py:150-151 writes into the dumped mapping: documents holding `!path` nodes are also read from a named scratch file "
+            "and their dump re-read as a string / from another directory / under the same name (evaluated paths and second dump compared)",
 }
 ENGINE = {"name": "dump-roundtrip", "path": "harness/c18.py", "serves_properties": ["C18"],
           "kind_free_text": "TLC (AyDump, MC_Dump, Trace_Dump) + differential replay of yaml.dump / yaml.parse / Builder"}
@@ -113,7 +120,11 @@ ASSUMPTIONS = [
     "merge histories: every 1- and 2-stage history over the context documents with the hole anywhere, 3-stage over a subset",
     "the renderer (harness/sdoc.py) and the projection (harness/project.py) are trusted; PyYAML 6.0.3, CPython 3.12",
     "interchangeable = equal data, user metadata, effective priority, safety of executing nodes and of what containers hand to new "
-    "children, in the merged tree of every history, and equal evaluation outcome; source_file and stage index are excluded by design",
+    "children, in the merged tree of every history, and equal evaluation outcome; source_file and stage index are excluded by design, "
+    "except the source file of `!path` nodes (written by the dump): a document read from a named file and its dump re-read without a name, "
+    "under another name in another directory and under the same name must evaluate to the same paths and dump to the same text; a document "
+    "that never had a file name re-read under one, and merge histories in which a `!path` node adopts the file of a plain list of the "
+    "document that replaces it (node.py:524-532 _take_over), are outside the domain",
     "strings are opaque to TLC: text-level quoting is exercised by rendering only (one backslash string is modelled)",
 ]
 
@@ -346,18 +357,50 @@ def _shape_p(v, root):
     return [type(v).__name__, repr(v)]
 
 
+class PathAdoptions(object):
+    """Counts the promotions in which a `!path` node stands in for the plain list that replaces it (node.py:501-518): `_take_over`
+    (node.py:524-532) then gives it EVERY attribute of that list, its source file included.  The file of a plain list is not part
+    of a dump by design (node.py:354), so a merge history in which this happens to a list OF THE DOCUMENT is outside the property's
+    domain (`out: !path:parent [results]` from /srv/proj/base.yaml, then `out: [elsewhere]` from /home/u/exp/over.yaml evaluates to
+    /home/u/exp/elsewhere; the dump of the second document is `out: [elsewhere]` wherever it is read from)."""
+    def __init__(self):
+        self.n = 0
+
+    def __enter__(self):
+        from awesomeyaml.nodes.node import ConfigNode
+        self.cls, self.orig = ConfigNode, ConfigNode.__dict__.get("_take_over")
+        if self.orig is not None:
+            me, orig = self, self.orig
+
+            def _take_over(node, other):
+                # (the context documents of a history are parsed from strings: a list that knows a file is a node of the document)
+                if type(node).__name__ == "PathNode" and getattr(other, "_source_file", None) is not None:
+                    me.n += 1
+                return orig(node, other)
+            ConfigNode._take_over = _take_over
+        return self
+
+    def __exit__(self, *exc):
+        if self.orig is not None:
+            self.cls._take_over = self.orig
+        return False
+
+
 def outcome_files(sources, root):
     """evaluation outcome of a merge history whose sources are (text or file name, raw_yaml, filename, safe)"""
     import vmod
     from awesomeyaml.builder import Builder
     from awesomeyaml.config import Config
-    try:
-        b = Builder()
-        for src, raw, fname, safe in sources:
-            b.add_source(src, raw_yaml=raw, filename=fname, safe=bool(safe))
-        tree = b.build()
-    except Exception as e:  # noqa
-        return {"err": _errclass(e)}
+    with PathAdoptions() as ad:
+        try:
+            b = Builder()
+            for src, raw, fname, safe in sources:
+                b.add_source(src, raw_yaml=raw, filename=fname, safe=bool(safe))
+            tree = b.build()
+        except Exception as e:  # noqa
+            return {"err": _errclass(e)}
+    if ad.n:
+        return {"outside": "a !path node adopted the source file of the plain list that replaced it"}
     del vmod.CALLS[:]
     del vmod.STACK[:]
     try:
@@ -423,15 +466,18 @@ def file_round_trips(text0, safe, root, hists=()):
         ev1 = [outcome_files(srcs, d) for srcs in fills(hole)]
         vals0, vals1 = [[x["fn"], x["val"]] for x in l0], [[x["fn"], x["val"]] for x in w["l1"]]
         w["pv"] = vals0 == vals1 and ev0[0] == ev1[0]
-        w["ic"] = ev0[1:] == ev1[1:]
+        bad = [k for k in range(1, len(ev0)) if ev0[k] != ev1[k] and "outside" not in ev0[k] and "outside" not in ev1[k]]
+        w["ic"] = not bad
+        w["outside"] = sum(1 for k in range(len(ev0)) if "outside" in ev0[k] or "outside" in ev1[k])
         if not w["pv"]:
             w["values"] = {"original": [vals0, ev0[0]], "reparsed": [vals1, ev1[0]]}
-        if not w["ic"]:
-            w["history"] = [k for k in range(1, len(ev0)) if ev0[k] != ev1[k]]
+        if bad:
+            w["history"] = [[k, ev0[k], ev1[k]] for k in bad]
         if w["st"]:
             w.pop("second_dump", None)
     for k in ("pv", "st", "ic"):
         res[k] = all(w[k] for w in res["ways"])
+    res["outside"] = sum(w.get("outside", 0) for w in res["ways"])
     return res
 
 
@@ -714,7 +760,8 @@ def _replay_row(u, row, seed, nsample, froot):
     mb = model_broken_of(row)
     cls = classify(j["real"], mb, a_agree, parse_agree, row["fired"])
     res.update(cls=cls, real=j["real"], model_broken=sorted(mb), a_agree=a_agree, parse_agree=parse_agree, ctx_run=j["ctx_run"],
-               nontrivial=bool(rt["text1"] and "!" in rt["text1"]) or rt["out"] != "ok", changed=rt["out"] != "ok" or rt["p0"] != rt["p1"])
+               nontrivial=bool(rt["text1"] and "!" in rt["text1"]) or rt["out"] != "ok", changed=rt["out"] != "ok" or rt["p0"] != rt["p1"],
+               file_trip=fr is not None, file_outside=fr["outside"] if fr else 0)
     if cls in ("viol", "drift") or (cls == "known" and res["fired"]):
         d = None
         if rt["out"] == "ok" and "err" not in um and not a_agree:
@@ -1070,7 +1117,18 @@ def run(prop, tier, seed, replay, keep):
         ctxbig, ctxsmall = sets[cb_name], sets[cs_name]
         t_uni = time.time() - t0
 
+        import threading
+        upaths, ulock = {}, threading.Lock()
+
         def upath_of(name, unames):
+            # written ONCE per name (several mutation cfgs share a universe and run side by side: a second writer would
+            # truncate the file another TLC is reading)
+            with ulock:
+                if name not in upaths:
+                    upaths[name] = _upath_of(name, unames)
+                return upaths[name]
+
+        def _upath_of(name, unames):
             seen, targets = set(), []
             for un in unames:
                 for d in sets[un]:
@@ -1180,7 +1238,7 @@ def run(prop, tier, seed, replay, keep):
             judged = [x for chunk in asyncres.get(timeout=tmo) for x in chunk]
             by_i = {x["i"]: x for x in rows}
             cnt = {"ok": 0, "known": 0, "viol": 0, "drift": 0, "unparsed": 0}
-            nontriv = changed = ctx_run = 0
+            nontriv = changed = ctx_run = ftrips = foutside = 0
             model_broken = sum(1 for x in rows if model_broken_of(x))
             uni_docs = None
             for jd in judged:
@@ -1188,6 +1246,8 @@ def run(prop, tier, seed, replay, keep):
                 nontriv += 1 if jd.get("nontrivial") else 0
                 changed += 1 if jd.get("changed") else 0
                 ctx_run += jd.get("ctx_run", 0)
+                ftrips += 1 if jd.get("file_trip") else 0
+                foutside += jd.get("file_outside", 0)
                 if jd["cls"] == "known":
                     for sw in (jd["fired"] if "detail" in jd else []):
                         slot = known_hits.setdefault(sw, [0, None])
@@ -1223,7 +1283,9 @@ def run(prop, tier, seed, replay, keep):
             cov["configs"].append({"universe": name, "sets": unames, "source_safe": safe, "three_stage_histories": st3,
                                    "documents": r["ntargets"], "states": r["distinct"], "transitions": r["generated"],
                                    "model_says_as_is_broken": model_broken, "library": cnt, "documents_changed_by_round_trip": changed,
-                                   "merge_histories_run_in_library": ctx_run, "tlc_wall_s": round(r["wall"], 1), "exhaustive": True})
+                                   "merge_histories_run_in_library": ctx_run, "documents_with_path_nodes_read_from_a_named_file": ftrips,
+                                   "file_histories_outside_domain_path_adopts_file_of_plain_list": foutside,
+                                   "tlc_wall_s": round(r["wall"], 1), "exhaustive": True})
             cov["states"] += r["distinct"]
             cov["transitions"] += r["generated"]
             cov["traces_validated_against_impl"] += len(judged)
@@ -1316,6 +1378,8 @@ def run(prop, tier, seed, replay, keep):
         cov["configs"].append({"universe": "recorded-round-trips", "fixture_documents": nfix, "random_documents": ntraces,
                                "skipped_outside_the_specification_or_unparsable": len(skipped), "traces": len(traces), "verdicts": tcnt,
                                "fixture_documents_validated": fixt_ok, "states": rt_["distinct"], "transitions": rt_["generated"],
+                               "traces_with_path_nodes_read_from_a_named_file": sum(1 for t in traces if t["pf"]),
+                               "source_file_layer_vs_logged": {k: sum(1 for v in verdicts.values() if v["pfcmp"] == k) for k in ("equal", "differs", "none")},
                                "tlc_wall_s": round(rt_["wall"], 1), "exhaustive": False})
         cov["states"] += rt_["distinct"]
         cov["transitions"] += rt_["generated"]
